@@ -258,6 +258,8 @@ def export_impl(a):
     import pydotplus
 
     h.enter()
+    if h.blocked(**a):
+        return True
     sel = h.SEL
     t = T[sel["template"]]
     entry = tuple(sel["entry"]) if sel.get("entry") else None
@@ -287,6 +289,31 @@ def export_impl(a):
             if not _acyclic([(e.get_source().strip('"'), e.get_destination().strip('"')) for e in g.get_edges()]):
                 LAST_DETAIL[0] = "%s: exported graph has a cycle" % sel["template"]
                 return h.verdict(False)
+            if sel.get("solid") is not None:
+                # the edges of the exported graph against the edges the program text dictates
+                want = set((u, v) for (u, v) in sel["solid"])
+                es = [(e.get_source().strip('"'), e.get_destination().strip('"'), (e.get("style") or "solid").strip('"')) for e in g.get_edges()]
+                got = set((u, v) for (u, v, st) in es if st == "solid")
+                other = sorted((u, v, st) for (u, v, st) in es if st != "solid")
+                extra, lacking = got - want, want - got
+                if sel.get("strict"):
+                    bad_extra = extra
+                else:
+                    # tolerated here (and reported by the .strict twin of this query): a solid edge u -> v that only repeats a chain
+                    # of expected solid edges from u to v
+                    reach = set(want)
+                    changed = True
+                    while changed:
+                        changed = False
+                        for (x, y) in list(reach):
+                            for (y2, z) in want:
+                                if y2 == y and (x, z) not in reach:
+                                    reach.add((x, z))
+                                    changed = True
+                    bad_extra = set(e for e in extra if e not in reach)
+                if lacking or bad_extra or other:
+                    LAST_DETAIL[0] = "%s %s: solid edges %r, the program dictates %r (unexpected %r, lacking %r, non-solid %r)" % (sel["template"], entry, sorted(got), sorted(want), sorted(bad_extra), sorted(lacking), other)
+                    return h.verdict(False)
     ok = out[0] == out[1] and out[0][0][0] == "ok"
     if not ok:
         LAST_DETAIL[0] = "%s: with export %r / without %r" % (sel["template"], out[1][0], out[0][0])
@@ -325,6 +352,12 @@ def queries(tier):
         for k2 in range(6):
             for k3 in range(6):
                 qs.append({"id": "tree.wide5.k%d%d" % (k2, k3), "fn": "wide", "sel": {"k2": k2, "k3": k3, "five": 1}, "timeout": 1200})
+    # exported edges against the program text: a default-parameter function kept before a sibling and again by a later function;
+    # a chain of three keeps (its .strict twin reports the recorded finding: transitive solid edge)
+    P = "/t18/"
+    qs.append({"id": "export.T18.top", "fn": "export", "sel": {"template": "T18", "entry": ["tq.m1", "top"], "nargs": False, "solid": [[P + "a", P + "p"], [P + "b", P + "p"], [P + "a", P + "q"]], "strict": True}, "timeout": 400})
+    qs.append({"id": "export.T18.chain", "fn": "export", "sel": {"template": "T18", "entry": ["tq.m1", "chain"], "nargs": False, "solid": [[P + "x", P + "m"], [P + "m", P + "c"]]}, "timeout": 400})
+    qs.append({"id": "export.T18.chain.strict", "fn": "export", "sel": {"template": "T18", "entry": ["tq.m1", "chain"], "nargs": False, "solid": [[P + "x", P + "m"], [P + "m", P + "c"]], "strict": True}, "timeout": 400})
     for tn, entry, nargs in (("T1", None, False), ("T3", ["tq.m1", "root"], True), ("T4", ["tq.m1", "root"], True), ("T5", None, False), ("T6", None, False), ("T7", None, False), ("T8", None, False), ("T9", ["tq.m1", "root_a"], False), ("T9", ["tq.m1", "root_d"], False)):
         qs.append({"id": "export.%s%s" % (tn, ("." + entry[1]) if entry else ""), "fn": "export", "sel": {"template": tn, "entry": entry, "nargs": nargs}, "timeout": 400})
     return qs
